@@ -17,12 +17,14 @@ func init() {
 	register(&Check{
 		ID:  "C40",
 		Run: runC40,
-		Explanation: "Decides the shared-state discipline that makes concurrent API use race-free: (R1 guarded-by) every read and write of font.userFontMetrics happens with font.userFontMetricsLock held (RLock suffices for reads), of font.loadUserFontsErr with font.loadUserFontsMutex held, and of the fields of pdfcpu.trustedCertificatePool with its embedded RWMutex held — lock state is a per-function must-dataflow (Lock/RLock gen, non-deferred Unlock kill) with entry states inherited from all call sites (requires-lock summaries) and, for closures, from the point where the closure is created (sync.Once.Do bodies); (R2 closed world) every package-level variable of the module that is written, or on which a method is invoked through an interface/pointer value, in code reachable from an exported function of pkg/api or pkg/pdfcpu is either in the guarded-by table, of a sync/atomic type, written only in package initialisers, or listed in the configuration-time / concurrency-safe tables with a reason (loggers, ConfigPath/UserFontDir/TrustedCertDir set while loading configuration — the property presupposes the configuration directory disabled); a new stateful package-level object (e.g. a shared hash.Hash or buffer) is reported; (R3 lock hygiene) every Lock/RLock in these packages is paired with a deferred or all-path Unlock on the same mutex, no function acquires font.loadUserFontsMutex while already inside loadUserFontsOnce.Do (the established order is mutex → once), and no RLock→Lock upgrade; (R4 escape) the address of a package-level variable of the module (taken as a value: assigned, passed, returned) is followed through locals, phis, parameters of statically resolved callees and results back to the call sites, and no store goes through a pointer that may hold it — a flow is cut only where the pointer was just compared nil or its pointee compared non-zero and the variable is an integer that starts at zero (the zero-sentinel idiom of the xref reader: `if off == nil || *off != 0`); addresses parked in heap fields are counted but not followed (stated limit); (R5 optimistic reads) a function that reads shared on-disk state without holding its lock and validates the read against a revision counter (buildCurrentCertificatePool against model.CertificateStoreRevision) reads the revision before the data on every path, hands back that earlier revision with the data, and reaches a success return only over the edge where a second revision read, made after the data read, equals the first. NOT decided: determinism of results, races on data reachable only from caller-owned *model.Context values, std-lib internals.",
+		Explanation: "Decides the shared-state discipline that makes concurrent API use race-free: (R1 guarded-by) every read and write of font.userFontMetrics happens with font.userFontMetricsLock held (RLock suffices for reads), of font.loadUserFontsErr with font.loadUserFontsMutex held, and of the fields of pdfcpu.trustedCertificatePool with its embedded RWMutex held — lock state is a per-function must-dataflow (Lock/RLock gen, non-deferred Unlock kill) with entry states inherited from all call sites (requires-lock summaries) and, for closures, from the point where the closure is created (sync.Once.Do bodies); (R2 closed world) every package-level variable of the module that is written, or on which a method is invoked through an interface/pointer value, in code reachable from an exported function of pkg/api or pkg/pdfcpu is either in the guarded-by table, of a sync/atomic type, written only in package initialisers, or listed in the configuration-time / concurrency-safe tables with a reason (loggers, ConfigPath/UserFontDir/TrustedCertDir set while loading configuration — the property presupposes the configuration directory disabled); a new stateful package-level object (e.g. a shared hash.Hash or buffer) is reported; (R3 lock hygiene) every Lock/RLock in these packages is paired with a deferred or all-path Unlock on the same mutex, no function acquires font.loadUserFontsMutex while already inside loadUserFontsOnce.Do (the established order is mutex → once), and no RLock→Lock upgrade; (R4 escape) the address of a package-level variable of the module (taken as a value: assigned, passed, returned) is followed through locals, phis, parameters of statically resolved callees and results back to the call sites, and no store goes through a pointer that may hold it — a flow is cut only where the pointer was just compared nil or its pointee compared non-zero and the variable is an integer that starts at zero (the zero-sentinel idiom of the xref reader: `if off == nil || *off != 0`); addresses parked in heap fields are counted but not followed (stated limit); (R7 shared reference values) the value of a package-level map or slice (other than the guarded and configuration-time ones) is followed through locals, φ, parameters and results; no MapUpdate or element store is applied to it away from the variable itself; (R6 table elements) no store goes through a pointer obtained by indexing a package-level map or slice with pointer elements (types.PaperSize: d := PaperSize[v]; d.Width, d.Height = … changes the table for the whole process); (R5 optimistic reads) a function that reads shared on-disk state without holding its lock and validates the read against a revision counter (buildCurrentCertificatePool against model.CertificateStoreRevision) reads the revision before the data on every path, hands back that earlier revision with the data, and reaches a success return only over the edge where a second revision read, made after the data read, equals the first. NOT decided: determinism of results, races on data reachable only from caller-owned *model.Context values, std-lib internals.",
 		Rules: []string{
 			"C40.R1 LOCK: guarded-by table with lock-state dataflow and call-site summaries",
 			"C40.R2 closed world of shared package-level state reachable from the API",
 			"C40.R4 escape: no store through a pointer that may hold the address of a package-level variable",
 			"C40.R5 shape: optimistic (revision-validated) reads of shared on-disk state",
+			"C40.R6 escape: no store through an element pointer of a package-level table",
+			"C40.R7 escape: a package-level map/slice value that is handed out is not written by a receiver",
 			"C40.R3 lock hygiene and lock order (mutex before once)",
 		},
 		Assumptions: []string{"configuration directory disabled (documented multi-threaded mode); loggers are configured before concurrent use"},
@@ -229,6 +231,10 @@ func (ls *lockState) entryState(fn *ssa.Function) map[string]bool {
 }
 
 func runC40(c *Ctx) {
+	c.R.MinInst["C40.R6"] = 1
+	checkTableElementsNotWritten(c)
+	c.R.MinInst["C40.R7"] = 1
+	checkSharedReferenceValuesNotWritten(c)
 	p, r := c.P, c.R
 	r.MinInst["C40.R1"] = 10
 	r.MinInst["C40.R2"] = 5
@@ -992,4 +998,286 @@ func zeroForever(g *ssa.Global) bool {
 		})
 	}
 	return okInit
+}
+
+// ---------------- C40.R6 (round 3): no store through an element pointer of a package-level table ----------------
+
+// tableElementPointer: v is (possibly through φ / comma-ok extraction) the result of indexing a package-level map or
+// slice whose elements are pointers — a pointer INTO state shared by every operation of the process.
+func tableElementPointer(v ssa.Value, d int, seen map[ssa.Value]bool) *ssa.Global {
+	if v == nil || d > 6 || seen[v] {
+		return nil
+	}
+	seen[v] = true
+	switch x := v.(type) {
+	case *ssa.Lookup:
+		if ld, ok := x.X.(*ssa.UnOp); ok && ld.Op == token.MUL {
+			if g, ok := ld.X.(*ssa.Global); ok && g.Pkg != nil && strings.HasPrefix(g.Pkg.Pkg.Path(), modPath) {
+				return g
+			}
+		}
+	case *ssa.Extract:
+		return tableElementPointer(x.Tuple, d+1, seen)
+	case *ssa.Phi:
+		for _, e := range x.Edges {
+			if g := tableElementPointer(e, d+1, seen); g != nil {
+				return g
+			}
+		}
+	case *ssa.UnOp:
+		if x.Op == token.MUL {
+			// element of a package-level slice/array of pointers: *(&G[i])
+			if ia, ok := x.X.(*ssa.IndexAddr); ok {
+				if ld, ok := ia.X.(*ssa.UnOp); ok && ld.Op == token.MUL {
+					if g, ok := ld.X.(*ssa.Global); ok && g.Pkg != nil && strings.HasPrefix(g.Pkg.Pkg.Path(), modPath) {
+						return g
+					}
+				}
+			}
+			// a local cell holding such a pointer
+			if al, ok := x.X.(*ssa.Alloc); ok {
+				for _, rf := range *al.Referrers() {
+					if st, ok := rf.(*ssa.Store); ok && st.Addr == ssa.Value(al) {
+						if g := tableElementPointer(st.Val, d+1, seen); g != nil {
+							return g
+						}
+					}
+				}
+			}
+		}
+	}
+	return nil
+}
+
+// checkTableElementsNotWritten: the paper-size table (types.PaperSize, map[string]*Dim) and its like are looked up by
+// every operation. A store through an element pointer — d := types.PaperSize[v]; d.Width, d.Height = d.Height, d.Width —
+// changes the table for every later and every concurrent operation of the process.
+func checkTableElementsNotWritten(c *Ctx) {
+	p, r := c.P, c.R
+	n, lookups := 0, 0
+	for _, fn := range p.Funcs {
+		if !isSubject(fn) {
+			continue
+		}
+		if strings.HasPrefix(fn.Name(), "init") && fn.Parent() == nil {
+			continue
+		}
+		fn := fn
+		k := 0
+		eachInstr(fn, func(_ *ssa.BasicBlock, _ int, i ssa.Instruction) {
+			if lk, ok := i.(*ssa.Lookup); ok {
+				if tableElementPointer(lk, 0, map[ssa.Value]bool{}) != nil {
+					if _, isPtr := lk.Type().Underlying().(*types.Pointer); isPtr {
+						lookups++
+					} else if tup, ok := lk.Type().(*types.Tuple); ok && tup.Len() == 2 {
+						if _, isPtr := tup.At(0).Type().Underlying().(*types.Pointer); isPtr {
+							lookups++
+						}
+					}
+				}
+			}
+			st, ok := i.(*ssa.Store)
+			if !ok {
+				return
+			}
+			var base ssa.Value
+			switch a := st.Addr.(type) {
+			case *ssa.FieldAddr:
+				base = a.X
+			case *ssa.IndexAddr:
+				base = a.X
+			default:
+				return
+			}
+			if _, isPtr := base.Type().Underlying().(*types.Pointer); !isPtr {
+				return
+			}
+			g := tableElementPointer(base, 0, map[ssa.Value]bool{})
+			if g == nil {
+				return
+			}
+			k++
+			n++
+			name := strings.TrimPrefix(g.Pkg.Pkg.Path(), modPath+"/") + "." + g.Name()
+			r.Bad("C40.R6", FuncID(fn), fmt.Sprintf("store through element of %s#%d", name, k), p.Pos(st.Pos()), "a field of an element of the package-level table "+name+" is written through the pointer the lookup returned: the table is shared by every operation of the process, so every later call and every concurrent goroutine sees the changed entry (and two such calls race)")
+		})
+	}
+	if lookups == 0 {
+		r.Bad("C40.R6", "-", "anchor", "", "UNRESOLVED-ANCHOR: no lookup of a pointer element in a package-level table found (types.PaperSize on the pinned tree)")
+		return
+	}
+	if n == 0 {
+		r.OK("C40.R6", "module", "stores through table element pointers", "", fmt.Sprintf("%d lookups of pointer elements in package-level tables; none of the pointers is stored through", lookups), true)
+	}
+}
+
+// ---------------- C40.R7 (round 3 of seeding): shared reference values handed out and written by the receiver ----------------
+
+// checkSharedReferenceValuesNotWritten: a package-level map, slice or pointer variable is shared state even when only its
+// VALUE (the reference) travels: `return noFilterParms` hands every caller the same map, and a caller that inserts a key
+// writes state that all other operations read. The value loaded from such a variable is followed through φ, local cells,
+// parameters of statically resolved callees and results back to the call sites; a MapUpdate on it, or a store through an
+// element or field of it, is reported — unless the variable is in the guarded-by or configuration-time tables (R1/R2).
+func checkSharedReferenceValuesNotWritten(c *Ctx) {
+	p, r := c.P, c.R
+	cg := c.CG()
+	exempt := map[string]bool{}
+	for _, g := range c40Guarded {
+		exempt[g.global] = true
+	}
+	for k := range c40ConfigTime {
+		exempt[k] = true
+	}
+	gname := func(g *ssa.Global) string { return strings.TrimPrefix(g.Pkg.Pkg.Path(), modPath+"/") + "." + g.Name() }
+	may := map[ssa.Value]*ssa.Global{}
+	var work []ssa.Value
+	add := func(v ssa.Value, g *ssa.Global) {
+		if v == nil {
+			return
+		}
+		if _, ok := may[v]; ok {
+			return
+		}
+		may[v] = g
+		work = append(work, v)
+	}
+	seeds := 0
+	for _, fn := range p.Funcs {
+		if !isSubject(fn) {
+			continue
+		}
+		eachInstr(fn, func(_ *ssa.BasicBlock, _ int, i ssa.Instruction) {
+			ld, ok := i.(*ssa.UnOp)
+			if !ok || ld.Op != token.MUL {
+				return
+			}
+			g, ok := ld.X.(*ssa.Global)
+			if !ok || g.Pkg == nil || !strings.HasPrefix(g.Pkg.Pkg.Path(), modPath) || exempt[gname(g)] {
+				return
+			}
+			switch ld.Type().Underlying().(type) {
+			case *types.Map, *types.Slice:
+			default:
+				return
+			}
+			seeds++
+			add(ld, g)
+		})
+	}
+	type esc struct{ how, pos string }
+	escapes := map[*ssa.Global]esc{}
+	for len(work) > 0 {
+		v := work[len(work)-1]
+		work = work[:len(work)-1]
+		g := may[v]
+		refs := v.Referrers()
+		if refs == nil {
+			continue
+		}
+		for _, rf := range *refs {
+			switch x := rf.(type) {
+			case *ssa.Phi:
+				add(x, g)
+			case *ssa.ChangeType:
+				add(x, g)
+			case *ssa.Store:
+				if x.Val == v {
+					if al, ok := x.Addr.(*ssa.Alloc); ok {
+						for _, r2 := range *al.Referrers() {
+							if ld, ok := r2.(*ssa.UnOp); ok && ld.Op == token.MUL {
+								add(ld, g)
+							}
+						}
+					}
+				}
+			case *ssa.Return:
+				fn := x.Parent()
+				for ri, rv := range x.Results {
+					if rv != v {
+						continue
+					}
+					if _, seen := escapes[g]; !seen {
+						escapes[g] = esc{"returned by " + FuncID(fn), p.Pos(x.Pos())}
+					}
+					for _, caller := range cg.In[fn] {
+						eachInstr(caller, func(_ *ssa.BasicBlock, _ int, ci ssa.Instruction) {
+							cc, ok := ci.(*ssa.Call)
+							if !ok {
+								return
+							}
+							if f := staticCallee(cc); f == nil || unwrapSynthetic(f) != fn {
+								return
+							}
+							if len(x.Results) == 1 {
+								add(cc, g)
+							} else {
+								for _, r3 := range *cc.Referrers() {
+									if ex, ok := r3.(*ssa.Extract); ok && ex.Index == ri {
+										add(ex, g)
+									}
+								}
+							}
+						})
+					}
+				}
+			case ssa.CallInstruction:
+				callee := staticCallee(x)
+				if callee == nil || !isSubject(callee) {
+					continue
+				}
+				for k, a := range x.Common().Args {
+					if a == v && k < len(callee.Params) {
+						add(callee.Params[k], g)
+					}
+				}
+			}
+		}
+	}
+	// sinks
+	n := 0
+	reported := map[*ssa.Global]bool{}
+	for _, fn := range p.Funcs {
+		if !isSubject(fn) || (strings.HasPrefix(fn.Name(), "init") && fn.Parent() == nil) {
+			continue
+		}
+		fn := fn
+		eachInstr(fn, func(_ *ssa.BasicBlock, _ int, i ssa.Instruction) {
+			var target ssa.Value
+			switch x := i.(type) {
+			case *ssa.MapUpdate:
+				target = x.Map
+			case *ssa.Store:
+				if ia, ok := x.Addr.(*ssa.IndexAddr); ok {
+					target = ia.X
+				}
+			}
+			if target == nil {
+				return
+			}
+			g, ok := may[target]
+			if !ok {
+				return
+			}
+			// a direct update of the variable's own value inside its owner is R2's business; here: the value travelled
+			if ld, ok := target.(*ssa.UnOp); ok {
+				if _, direct := ld.X.(*ssa.Global); direct {
+					return
+				}
+			}
+			if reported[g] {
+				return
+			}
+			reported[g] = true
+			n++
+			e := escapes[g]
+			r.Bad("C40.R7", gname(g), "value written by a receiver", p.Pos(i.Pos()), "the map/slice held by package-level variable "+g.Name()+" is handed out ("+e.how+", "+e.pos+") and written here in "+FuncID(fn)+": every operation that receives the same value sees the entry, and concurrent operations race on it")
+		})
+	}
+	if seeds == 0 {
+		r.Bad("C40.R7", "-", "anchor", "", "UNRESOLVED-ANCHOR: no package-level map or slice is read in subject code")
+		return
+	}
+	if n == 0 {
+		r.OK("C40.R7", "module", "shared reference values", "", fmt.Sprintf("%d reads of package-level maps/slices followed (%d values); none reaches a map update or element store outside the variable's own accessors", seeds, len(may)), true)
+	}
 }
